@@ -73,9 +73,17 @@ class Pool:
         s.block(lambda: not self._live(), timeout, True, False)      # handlers of the main greenlet run while it waits
         return not self._live()
 
-    def kill(self):
-        for t in self._live():
-            t.killed = True
+    def kill(self, block=True, timeout=None):
+        # gevent.pool.Group.kill: GreenletExit is raised in every member at the blocking call it is suspended in (a member that
+        # catches it simply goes on), and the caller waits for them to finish
+        s, t, p = facade.ctx()
+        victims = [x for x in self._live() if x is not t]
+        for x in victims:
+            x.throw = GreenletExit()
+            s.ev(p.name, "greenlet-kill", x.name)
+        if block and victims:
+            s.block(lambda: all(x.state == "done" or x.throw is None for x in victims), None, True, False)
+            s.block(lambda: all(x.state == "done" for x in victims), timeout if timeout is not None else 1.0, True, False)
 
 
 class StreamServer:
@@ -129,7 +137,7 @@ class StreamServer:
     def stop(self, timeout=None):
         self.close()
         self.pool.join(timeout)
-        self.pool.kill()
+        self.pool.kill(block=True, timeout=1)
 
 
 class FakeGevent:
